@@ -31,6 +31,9 @@ PROPERTY = "C35"
 ENGINE = "E1"
 FUNCTIONS = ["ioflo.aio.proto.stacking.GramStack.serviceTxPkts", "GramStack._serviceOneTxPkt",
              "GramStack.transmit", "Stack.__init__"]
+TECHNIQUE = "E1: symbolic execution of the real GramStack.serviceTxPkts over a handler double with solver-controlled transient send failures"
+LEVEL_TEXT = "bounded model checking: 3-4 packets / 2 failing passes (quick), 4-6 packets / 2-3 failing passes (thorough), 3 destinations, per-call and per-destination failure models"
+LEVEL_NOTE = "destinations selector-symbolic up to renaming (all labellings for 3 packets); failure decisions and initial queue length symbolic"
 ASSUMPTIONS = [
     "handler is a double (opened, reopen, ha, send); a transient failure is socket.error(ECONNREFUSED) (errno classes are C25's subject)",
     "packets are doubles with pack() and a one-byte .packed; destinations are small integers used as opaque addresses",
